@@ -88,7 +88,7 @@ fn actions(all: bool) -> Vec<Stmt> {
     }
     let types: Vec<&'static str> = if all { vec!["DEFINT", "DEFSNG", "DEFDBL", "DEFSTR"] } else { vec!["DEFINT", "DEFSTR"] };
     for w in types {
-        for (f, t) in [('A', 'A'), ('A', 'B'), ('F', 'F'), ('A', 'Z')] {
+        for (f, t) in [('A', 'A'), ('A', 'B'), ('F', 'F'), ('A', 'Z'), ('B', 'B'), ('A', 'F')] {
             a.push(Stmt::DefType(w, f, t));
         }
     }
